@@ -298,7 +298,7 @@ MEMCHECK_THOROUGH = [_mc_cfg("vi-mgga-He", "vi-mgga", "rks", "He", "spline", "on
                      _mc_cfg("vj-expnt-He", "vj-expnt", "rks", "He", "spline", "onsite_direct"),
                      _mc_cfg("vk-mgga-LiH", "vk-mgga", "rks", "LiH", "gaussian", "onsite_direct", nset=2),
                      _mc_cfg("sdmx-Li", "sdmx", "uks", "Li"), _mc_cfg("sdmx1-He", "sdmx1", "rks", "He"),
-                     _mc_cfg("sdmxfull-He", "sdmxfull", "rks", "He"),
+                     _mc_cfg("sdmxg-He", "sdmxg", "rks", "He"),
                      _mc_cfg("sl-npa-Li", "sl-npa", "uks", "Li", mode="POL", evaluator="spinrbf"),
                      _mc_cfg("vj+sdmx-He", "vj+sdmx", "rks", "He", "gaussian", "onsite_direct", max_memory=1)]
 _MC_KINDS = ("Invalid read", "Invalid write", "Conditional jump or move depends on uninitialised value", "Use of uninitialised value",
@@ -415,6 +415,9 @@ def _run_memcheck(case, rec, rng):
             rec.require("inner[%s]" % f.get("oracle"), False, mechanism=f.get("mechanism"), detail=f.get("detail"))
         if res.get("status") == "error":
             rec.set_inconclusive("inner driver raised under valgrind: %s" % str(res.get("error"))[:300])
+            return
+        if res.get("inconclusive"):
+            rec.set_inconclusive("inner driver inconclusive under valgrind: %s" % str(res.get("inconclusive"))[:300])
             return
         if res.get("nontrivial"):
             rec.nontrivial("memcheck|%s" % case["inner"]["name"])
